@@ -51,6 +51,11 @@ func c17AudioLevel(c *mc.Ctx) {
 			want |= 0x80
 		}
 		c.Check(err == nil && len(b) == 1 && b[0] == want, "audiolevel-layout", "level %d voice %v: got %s, %v want %02x", level, voice, hx(b), err, want)
+		// the encoding belongs to the caller: rewriting it must not show in the next Marshal
+		b[0] ^= 0xFF
+		b2, err2 := e.Marshal()
+		c.Check(err2 == nil && len(b2) == 1 && b2[0] == want, "audiolevel-layout", "level %d voice %v: after the caller rewrote the first result, Marshal gives %s, %v want %02x", level, voice, hx(b2), err2, want)
+		b[0] ^= 0xFF
 		c.NonTrivial()
 		c.Outcome("encoded")
 	}
@@ -83,6 +88,11 @@ func c17TransportCC(c *mc.Ctx) {
 		if err != nil || len(b) != 2 || b[0] != byte(hi) || b[1] != byte(lo) {
 			c.Failf("transportcc-layout", "TransportSequence %d: got %s, %v", v, hx(b), err)
 		}
+		b[0], b[1] = ^b[0], ^b[1] // the caller rewrites its copy
+		if b2, err := (rtp.TransportCCExtension{TransportSequence: v}).Marshal(); err != nil || len(b2) != 2 || b2[0] != byte(hi) || b2[1] != byte(lo) {
+			c.Failf("transportcc-layout", "TransportSequence %d: after the caller rewrote the first result, Marshal gives %s, %v", v, hx(b2), err)
+		}
+		b[0], b[1] = ^b[0], ^b[1]
 		for _, tail := range c17Tails {
 			in := append(clone(b), tail...)
 			var d rtp.TransportCCExtension
@@ -110,6 +120,13 @@ func c17PlayoutDelay(c *mc.Ctx) {
 		w0, w1, w2 := byte(min>>4), byte(min<<4)|byte(max>>8), byte(max)
 		if err != nil || len(b) != 3 || b[0] != w0 || b[1] != w1 || b[2] != w2 {
 			c.Failf("playoutdelay-layout", "min %d max %d: got %s, %v want %02x%02x%02x", min, max, hx(b), err, w0, w1, w2)
+		}
+		if max&0x3F == 0x15 {
+			b[0], b[1], b[2] = ^b[0], ^b[1], ^b[2] // the caller rewrites its copy
+			if b2, err := (rtp.PlayoutDelayExtension{MinDelay: uint16(min), MaxDelay: uint16(max)}).Marshal(); err != nil || len(b2) != 3 || b2[0] != w0 || b2[1] != w1 || b2[2] != w2 {
+				c.Failf("playoutdelay-layout", "min %d max %d: after the caller rewrote the first result, Marshal gives %s, %v", min, max, hx(b2), err)
+			}
+			b[0], b[1], b[2] = ^b[0], ^b[1], ^b[2]
 		}
 		// decode into the receiver that still holds the previous pair (used receiver)
 		if err := d.Unmarshal(b); err != nil || int(d.MinDelay) != min || int(d.MaxDelay) != max {
@@ -157,6 +174,13 @@ func c17AbsSendTime(c *mc.Ctx) {
 		b, err := rtp.AbsSendTimeExtension{Timestamp: upper | v}.Marshal()
 		if err != nil || len(b) != 3 || b[0] != byte(hi) || b[1] != byte(lo>>8) || b[2] != byte(lo) {
 			c.Failf("abssendtime-layout", "timestamp %#x: got %s, %v", upper|v, hx(b), err)
+		}
+		if lo&0x3F == 0x2A {
+			b[0], b[1], b[2] = ^b[0], ^b[1], ^b[2] // the caller rewrites its copy
+			if b2, err := (rtp.AbsSendTimeExtension{Timestamp: upper | v}).Marshal(); err != nil || len(b2) != 3 || b2[0] != byte(hi) || b2[1] != byte(lo>>8) || b2[2] != byte(lo) {
+				c.Failf("abssendtime-layout", "timestamp %#x: after the caller rewrote the first result, Marshal gives %s, %v", upper|v, hx(b2), err)
+			}
+			b[0], b[1], b[2] = ^b[0], ^b[1], ^b[2]
 		}
 		if upper == 0 || lo&0xFF == 0x33 {
 			if err := d.Unmarshal(b); err != nil || d.Timestamp != v {
